@@ -280,7 +280,12 @@ class Exec:
             sub = cur.copy()
             sub.assume(t if isinstance(node.op, ast.And) else z3.Not(t))
             sub.pre = cur.pre
+            n_sub = len(sub.pc)
             rhs = self.ev(nxt, sub)
+            guards = [(tt if isinstance(node.op, ast.And) else z3.Not(tt)) for tt, _, _ in conds] + \
+                     [t if isinstance(node.op, ast.And) else z3.Not(t)]
+            for f in sub.pc[n_sub:]:
+                st.assume(z3.Implies(z3.And(*guards), f))
             conds.append((t, acc, rhs))
             # python value semantics: and -> (rhs if truthy(acc) else acc); or -> (acc if truthy(acc) else rhs)
             try:
@@ -303,11 +308,26 @@ class Exec:
         c = truthy(self.ev(node.test, st))
         s1 = st.copy().assume(c)
         s2 = st.copy().assume(z3.Not(c))
+        n0 = len(st.pc)
         if z3.is_true(z3.simplify(c)):
-            return self.ev(node.body, s1)
+            r = self.ev(node.body, s1)
+            self._keep_facts(st, s1, n0 + 1, None)
+            return r
         if z3.is_false(z3.simplify(c)):
-            return self.ev(node.orelse, s2)
-        return ite(c, self.ev(node.body, s1), self.ev(node.orelse, s2))
+            r = self.ev(node.orelse, s2)
+            self._keep_facts(st, s2, n0 + 1, None)
+            return r
+        a = self.ev(node.body, s1)
+        b = self.ev(node.orelse, s2)
+        # facts learnt while evaluating a branch (postconditions of called contracts, ...) hold under the branch condition
+        self._keep_facts(st, s1, n0 + 1, c)
+        self._keep_facts(st, s2, n0 + 1, z3.Not(c))
+        return ite(c, a, b)
+
+    @staticmethod
+    def _keep_facts(st, sub, start, guard):
+        for f in sub.pc[start:]:
+            st.assume(f if guard is None else z3.Implies(guard, f))
 
     def ev_BinOp(self, node, st):
         a = self.ev(node.left, st)
